@@ -1360,6 +1360,8 @@ func equal(a, b Object) (bool, error) {
 			return string(obj), nil
 		case Name:
 			return string(obj), nil
+		case Boolean:
+			return bool(obj), nil
 		default:
 			return nil, &postScriptError{eTypecheck, fmt.Sprintf("equality not implemented for %T", obj)}
 		}
